@@ -107,8 +107,9 @@ func c04Narrowing(r *core.Report) {
 				r.OK(rule, key, pos(r, at), okMsg)
 				return
 			}
-			if reason, listed := table[key]; listed {
-				used[key] = true
+			if tk, listed := exemptKey(table, key); listed {
+				reason := table[tk]
+				used[tk] = true
 				r.OK(rule, key, pos(r, at), "exempt (tables/c04_exempt.json): "+reason)
 				return
 			}
@@ -161,6 +162,9 @@ func c04Narrowing(r *core.Report) {
 	}
 	var stale []string
 	for k := range table {
+		if strings.HasPrefix(k, "short:") {
+			continue
+		}
 		if !used[k] {
 			stale = append(stale, k)
 		}
@@ -353,7 +357,14 @@ func c04Layout(r *core.Report) {
 		verIdx := int64(-1)
 		ast.Inspect(hl.Body, func(n ast.Node) bool {
 			if be, ok := n.(*ast.BinaryExpr); ok && be.Op == token.NEQ && strings.Contains(core.ExprStr(be.Y), "Version") {
-				if ix, ok := core.Unparen(be.X).(*ast.IndexExpr); ok {
+				lhs := core.Unparen(be.X)
+				if o := core.ObjOf(li, lhs); o != nil {
+					// `if version := buf[24]; version != Version`
+					if d := singleDefOrInit(hl, o); d != nil {
+						lhs = core.Unparen(d)
+					}
+				}
+				if ix, ok := lhs.(*ast.IndexExpr); ok {
 					verIdx, _ = core.ConstInt(li, ix.Index)
 				}
 			}
